@@ -115,8 +115,9 @@ class _Runner(_Processor):
                 # messages limit is already used up by the tasks started so far:
                 # give the message back untouched and stop consuming
                 self._limiter.release()
-                await self._conn.message_broker.reject(key)
                 self.stop_consume_event.set()
+                # (shielded: stopping cancels this task, the message must be given back anyway)
+                await asyncio.shield(self._conn.message_broker.reject(key))
                 return
             t = asyncio.create_task(self._process_with_event(actor, key, payload, params))
             self._tasks.add(t)
